@@ -266,7 +266,7 @@ class Opaque:
 def gen_value(rng, data, depth, stats=None, sym=False):
   """A nested value: dict / list / tuple / pg.Dict / pg.List / pg.Object / leaves."""
   p = pg()
-  kinds = ['int', 'str', 'str', 'longstr', 'none', 'bool', 'float', 'opaque'] + (['exotic'] if data.exotic else []) + (['dict', 'dict', 'list', 'tuple', 'pgdict', 'pglist', 'object', 'object'] if depth > 0 else [])
+  kinds = ['int', 'str', 'str', 'longstr', 'none', 'bool', 'float', 'opaque', 'misc'] + (['exotic'] if data.exotic else []) + (['dict', 'dict', 'list', 'tuple', 'pgdict', 'pglist', 'object', 'object'] if depth > 0 else [])
   k = rng.choice(kinds)
   if sym and k == 'tuple':      # symbolic containers convert nested containers; keep the shapes stable
     k = 'list'
@@ -279,16 +279,18 @@ def gen_value(rng, data, depth, stats=None, sym=False):
   if k == 'bool': return rng.choice([True, False])
   if k == 'float': return rng.choice([1.5, -0.25, 1e100, float('inf')])
   if k == 'opaque': return Opaque(data.s('opaque-repr'))
-  if k == 'exotic':     # values with their own view extension or format: oracle only
-    e = rng.choice(['ref', 'diff', 'bytes', 'set', 'class', 'spec', 'oneof', 'partial'])
-    if e == 'ref': return p.Ref(rng.choice([lambda: object_class('Foo', 1)(f0=data.s('leaf-str')), lambda: {data.s('dict-key'): 1}])())
-    if e == 'diff': return p.diff(p.Dict({'a': data.s('leaf-str'), 'b': [1, data.s('leaf-str')]}), p.Dict({'a': data.s('leaf-str'), 'c': 2}), mode=rng.choice(['diff', 'both']))
+  if k == 'misc':       # other leaf / object kinds the default view handles: bytes, sets, classes, value specs, hyper values, partial objects
+    e = rng.choice(['bytes', 'set', 'class', 'spec', 'oneof', 'partial'])
     if e == 'bytes': return data.s('leaf-str').encode('utf-8')
     if e == 'set': return frozenset([data.s('leaf-str'), 1])
-    if e == 'class': return rng.choice([int, Opaque, object_class('FooBar', 0)])
+    if e == 'class': return rng.choice([int, Opaque, object_class('FooBar', 0), object_class(data.s('class-name'), 0)])
     if e == 'spec': return p.typing.Enum(data.s('leaf-str'), [data.text['ZQ%dX' % data.n], 'b'])
     if e == 'oneof': return p.oneof([data.s('leaf-str'), data.s('leaf-str')])
     return object_class('FooBar', 2).partial(f0=data.s('leaf-str'))
+  if k == 'exotic':     # values with a view extension of their own: oracle only
+    e = rng.choice(['ref', 'diff'])
+    if e == 'ref': return p.Ref(rng.choice([lambda: object_class('Foo', 1)(f0=data.s('leaf-str')), lambda: {data.s('dict-key'): 1}])())
+    return p.diff(p.Dict({'a': data.s('leaf-str'), 'b': [1, data.s('leaf-str')]}), p.Dict({'a': data.s('leaf-str'), 'c': 2}), mode=rng.choice(['diff', 'both']))
   n = rng.choice([0, 1, 1, 2, 2, 3])
   if k in ('dict', 'pgdict'):
     d = {}
@@ -311,13 +313,23 @@ def gen_value(rng, data, depth, stats=None, sym=False):
   return cls(**vals)
 
 # ---- conversion of a real value to the model value (Model/Html.v pv) ------------------------------
+_FLAGS = {}     # extra_flags of the case being converted (hide_frozen / hide_default_values / use_inferred), see HtmlTreeView.content
+class view_flags:
+  def __init__(self, flags): self.flags = dict(flags or {})
+  def __enter__(self): self.old = dict(_FLAGS); _FLAGS.clear(); _FLAGS.update(self.flags)
+  def __exit__(self, *a): _FLAGS.clear(); _FLAGS.update(self.old)
+
 def child_items(value):
   p = pg()
   if isinstance(value, p.Symbolic):
     items = []
     for k, v in value.sym_items():
       field = value.sym_attr_field(k)
-      if field and field.frozen:
+      if _FLAGS.get('hide_frozen', True) and field and field.frozen:
+        continue
+      if _FLAGS.get('use_inferred', False) and isinstance(v, p.symbolic.Inferential):
+        v = value.sym_inferred(k, default=v)
+      if field and _FLAGS.get('hide_default_values', False) and v == field.default_value:
         continue
       items.append((k, v))
     return items
@@ -334,15 +346,18 @@ def conv(value, path):
   """The pv of Model/Html.v for `value` located at key list `path`."""
   p = pg()
   from pyglove.core import utils
+  import inspect
   tname = type(value).__name__
   cname = utils.camel_to_snake(tname, '-')
+  if inspect.isclass(value):
+    tname, cname = 'type', utils.camel_to_snake(value.__name__ + '-class', '-')
   fmt = utils.format(value, root_path=utils.KeyPath(list(path)), compact=False, verbose=False, python_format=True, max_bytes_len=64, max_str_len=256)
   items = child_items(value)
   if items is None:
     if isinstance(value, str):
       lk, raw, rep = 2, value, repr(value)
     else:
-      lk = 0 if isinstance(value, (bool, int, float)) else 1 if value is None else 3
+      lk = 4 if inspect.isclass(value) else 0 if isinstance(value, (bool, int, float)) else 1 if value is None else 3
       raw = ''
       rep = utils.format(value, compact=False, verbose=False, hide_default_values=True, python_format=True, use_inferred=True, max_bytes_len=64)
     return [0, lk, trlib.enc(tname), trlib.enc(cname), trlib.enc(raw), trlib.enc(rep), trlib.enc(fmt)]
@@ -435,21 +450,47 @@ def resolve_options(sym, value, rng, data):
   elif nm == 'plain': kw['name'] = 'plain_name'
   return kw
 
-def model_options(kw):
-  """Model/Html.v opts record for a set of keyword arguments (all modelled)."""
+def all_nodes(value, prefix=()):
+  """(path, child value, parent) for every node below `value`."""
+  out = []
+  for k, v in (child_items(value) or []):
+    out.append((prefix + (k,), v, value))
+    out.extend(all_nodes(v, prefix + (k,)))
+  return out
+
+def model_options(kw, value=None):
+  """Model/Html.v opts record for a set of keyword arguments (all modelled).  Callable options become the table of their
+  results on the nodes of `value`."""
+  from pyglove.core import utils
   g = lambda k: kw.get(k, DEFAULTS.get(k))
   keylist = lambda l: [enc_key(k) for k in l]
   root = list(kw['root_path'].keys) if 'root_path' in kw else []
+  nodes = all_nodes(value) if value is not None else []
+  kp = lambda path: utils.KeyPath(root + list(path))
+  table = lambda fn, pred=bool: [keylist(root + list(path)) for path, v, parent in nodes if pred(fn(kp(path), v, parent))]
+  callable_or = lambda k: kw.get(k) if callable(kw.get(k)) else None
+  inc, exc, ks, unc, kc, sc = (callable_or(k) for k in ('include_keys', 'exclude_keys', 'key_style', 'uncollapse', 'key_color', 'summary_color'))
+  if sc is not None:
+    scolor = sc(kp(()), value, None)
+  else:
+    scolor = kw.get('summary_color') or (None, None)
+  color = lambda c: [trlib.opt(c[0]), trlib.opt(c[1])]
   return [trlib.opt(kw.get('name'), enc_key), keylist(root), trlib.opt(g('enable_summary')), trlib.enc(bool(g('enable_summary_for_str'))),
           g('max_summary_len_for_str'), trlib.enc(bool(g('enable_summary_tooltip'))), trlib.enc(bool(g('enable_key_tooltip'))),
           1 if g('key_style') == 'label' else 0,
-          trlib.opt(kw.get('include_keys'), keylist), trlib.opt(kw.get('exclude_keys'), keylist), trlib.opt(g('collapse_level'), lambda z: z),
-          [keylist(list(p.keys)) for p in kw.get('uncollapse', [])],
+          trlib.opt(None if inc else kw.get('include_keys'), keylist), trlib.opt(None if exc else kw.get('exclude_keys'), keylist), trlib.opt(g('collapse_level'), lambda z: z),
+          [] if unc else [keylist(list(p.keys)) for p in kw.get('uncollapse', [])],
           [trlib.enc(c) for c in (kw.get('css_classes') or [])],
-          [trlib.opt(c) for c in (kw.get('summary_color') or (None, None))], [trlib.opt(c) for c in (kw.get('key_color') or (None, None))]]
+          color(scolor), color((None, None) if kc else (kw.get('key_color') or (None, None))),
+          table(kw['highlight']) if kw.get('highlight') else [], table(kw['lowlight']) if kw.get('lowlight') else [],
+          [table(ks, lambda r: r == 'label')] if ks else [],
+          [table(inc)] if inc else [], [table(exc)] if exc else [],
+          [([keylist(root)] if unc(kp(()), value, None) else []) + table(unc)] if unc else [],
+          [[[keylist(root + list(path)), color(kc(kp(path), v, parent))] for path, v, parent in nodes]] if kc else []]
 
 MODELLED = {'name', 'root_path', 'enable_summary', 'enable_summary_for_str', 'max_summary_len_for_str', 'enable_summary_tooltip', 'enable_key_tooltip',
-            'key_style', 'include_keys', 'exclude_keys', 'collapse_level', 'uncollapse', 'css_classes', 'summary_color', 'key_color'}
+            'key_style', 'include_keys', 'exclude_keys', 'collapse_level', 'uncollapse', 'css_classes', 'summary_color', 'key_color',
+            'highlight', 'lowlight', 'extra_flags'}
 
 # ------------------------------------------------------------------------------------------------
 # cases: a value and keyword arguments, rebuilt deterministically from seeds (so a replay file is small)
@@ -496,8 +537,8 @@ def extra_options(extra, value, rng, data):
   if extra == 'css_classes': return dict(css_classes=['my-class', 'other'])
   if extra == 'title': return dict(title='A plain title')
   if extra == 'colors': return dict(summary_color=('red', 'blue'), key_color=('white', None))
-  if extra == 'color_fn': return dict(summary_color=lambda k, v, p: ('red', None), key_color=lambda k, v, p: (None, 'gray'))
-  if extra == 'highlight': return dict(highlight=lambda k, v, p: isinstance(v, str), lowlight=lambda k, v, p: isinstance(v, int))
+  if extra == 'color_fn': return dict(summary_color=lambda k, v, p: ('red', None) if isinstance(v, (dict, list)) else (None, 'yellow'), key_color=lambda k, v, p: (None, 'gray') if len(k) % 2 else ('green', None) if isinstance(v, str) else (None, None), name='colored')
+  if extra == 'highlight': return dict(highlight=lambda k, v, p: isinstance(v, str) or len(k) == 2, lowlight=lambda k, v, p: isinstance(v, (int, str)) and not isinstance(p, list))
   if extra == 'key_style_fn': return dict(key_style=lambda k, v, p: 'label' if isinstance(v, (str, int)) else 'summary')
   if extra == 'include_fn': return dict(include_keys=lambda k, v, p: not isinstance(v, float), exclude_keys=lambda k, v, p: v is None)
   if extra == 'uncollapse_fn': return dict(uncollapse=lambda k, v, p: len(k) % 2 == 0, collapse_level=0)
@@ -1189,7 +1230,7 @@ def run(ctx):
     for sig, what in oracle(value, kw, data, twin, presence=spec.get('extra') != 'exotic'):
       ctx.hit(sig, what, dict(spec=spec, value=repr(value)[:300], options=repr(kw)[:300]))
     hostile_data = any(html_lib.escape(d) != d for d in data.text.values())
-    modelled = set(kw) <= MODELLED and not any(callable(v) for v in kw.values()) and spec.get('extra') != 'exotic'
+    modelled = set(kw) <= MODELLED and spec.get('extra') != 'exotic'
     key = json.dumps(spec, sort_keys=True, default=str)
     ctx.count(key, nontrivial=hostile_data,
               sample=dict(value=repr(value)[:200], options=repr(kw)[:200]) if hostile_data and spec['kind'] == 'gen' and len(ctx.samples) < 4 else None,
@@ -1211,7 +1252,8 @@ def run(ctx):
       ctx.hist('output_len', '<1k' if len(out) < 1000 else '<4k' if len(out) < 4000 else '<16k' if len(out) < 16000 else '>=16k')
       outputs.append(out)
     if modelled:
-      mo, mv = model_options(kw), conv(value, list(kw['root_path'].keys) if 'root_path' in kw else [])
+      with view_flags(kw.get('extra_flags')):
+        mo, mv = model_options(kw, value), conv(value, list(kw['root_path'].keys) if 'root_path' in kw else [])
       trs.append([0, mo, mv])
       impl_outs.append([0, trlib.enc(out)] if out is not None else None)
       descr.append(dict(spec=spec, value=repr(value)[:300], options=repr(kw)[:300]))
